@@ -157,7 +157,9 @@ def session_spec(draw, max_datasets=3, datetime=True, joins=True, links=True):
                 present = sorted(set(cc["vals"]))
                 order = list(draw(st.permutations(present))) + (["zz"] if draw(st.booleans()) else [])
                 cc["categories"] = order
-        dspec["meta"] = draw(st.sampled_from([{}, {"origin": "test", "n": 3}, {"k": [1, 2, 3], "unserialisable": "OBJECT"}]))
+        dspec["meta"] = draw(st.sampled_from([{}, {"origin": "test", "n": 3}, {"k": [1, 2, 3], "unserialisable": "OBJECT"},
+                                              # keys and values that contain, or start with, the serialiser's own string marker
+                                              {"test__run": "first__pass", "origin": "st__archive", "st__x": "best__fit__st__"}]))
         datasets.append(dspec)
     lks = []
     if links and nd >= 2:
